@@ -9,7 +9,11 @@ from .. import harness as H
 from .. import monitors as M
 from ..ref import rfc6455 as R
 
-SHARDS = {"quick": 8, "thorough": 16}
+SHARDS = {"quick": 10, "thorough": 18}  # the last two shards repeat shard 0's share under special interpreter conditions (see run())
+
+
+def shard_pyflags(tier, shard, nshards):
+    return ["-b"] if shard == nshards - 2 else []
 META = {
     "level": "exploration",
     "technique": "runtime monitoring: interleaved transport log (reads and writes in program order) checked by an ordering oracle against ping positions computed by an independent decoder",
@@ -32,7 +36,30 @@ MODES = [("recv", False), ("recv_data", False), ("recv_data", True), ("recv_data
 
 
 def run(res, tier, seed, shard, nshards):
+    import os
+    import sys
+    import warnings
+    # last shard: an interpreter without the ssl module (ws:// only); the one before: started with -b, BytesWarning raised inside the
+    # library is an error (str() / formatting of a bytes payload, e.g. in a log line)
+    special = "no-ssl" if shard == nshards - 1 else "bytes-warning" if shard == nshards - 2 else None
+    nshards -= 2
+    if special:
+        shard = 0
+    if special == "no-ssl":
+        os.environ["WSVERIF_NO_SSL"] = "1"
     W = H.ws()
+    if special == "no-ssl":
+        if W._http.HAVE_SSL:
+            res.inconc("the no-ssl shard got a library with ssl")
+            return
+        res.count("shard_without_ssl_module")
+    if special == "bytes-warning":
+        if not sys.flags.bytes_warning:
+            res.inconc("the bytes-warning shard was not started with -b")
+            return
+        warnings.filterwarnings("error", category=BytesWarning, module=r"websocket(\..*)?$")
+        res.count("shard_with_bytes_warnings_as_errors")
+    amb_dims = tuple(d for d in ("multithread", "tls", "dispatcher", "high_fd", "warn_error", "thread_hop", "truthy") if not (special == "no-ssl" and d == "tls"))
     rng = random.Random((seed << 8) ^ shard ^ 0xC07)
     cases = []
     for n in range(126):
@@ -76,7 +103,7 @@ def run(res, tier, seed, shard, nshards):
                 cuts = rng.choice([None, sorted({rng.randrange(1, len(stream)) for _ in range(rng.choice([2, 10, 60]))})])
                 judge(res, W, rng, stream, mode, ("rand", npings, mode), cuts)
 
-    with H.ambient((seed, shard, "C07"), res, dims=("multithread", "tls", "dispatcher", "high_fd", "warn_error", "thread_hop", "truthy")):
+    with H.ambient((seed, shard, "C07"), res, dims=amb_dims):
         H.in_sim(scen, watchdog=3000)
 
     def scen2():
